@@ -372,9 +372,14 @@ def custom_files(spec):
         rk.uid = 1000 * k
         for j, (seq, t, dur, peer) in enumerate(f["sends"]):
             kind = [" - Xseg to rank %d" % peer, " Data", " - Set BcList"][j % 3]
-            rk.dev_event(f"SenRdmaSend_{seq}{kind} [sync=g{seq}_s{f['rank']}_r{peer}_{j}] DmaO", TID_SEND,
-                         [float(t), float(t), float(t), float(t), float(t + dur)],
-                         {"Peer": str(peer), "Type": "MultiCast XSEG", "Bytes": "1024"})
+            extra = {"Peer": str(peer), "Type": "MultiCast XSEG", "Bytes": "1024"}
+            if j % 3 == 2:
+                extra["Peers"] = "0,1,2"        # as the runtime writes it on the "Set BcList" part (a string of its own)
+            # idless: the operation word carries no request id, the sequence number is the first number of the name,
+            # which then sits in the sync tag
+            nm = (f"SenRdmaSend{kind} [sync=g_{seq}_s{f['rank']}_r{peer}_{j}] DmaO" if f.get("idless") else
+                  f"SenRdmaSend_{seq}{kind} [sync=g{seq}_s{f['rank']}_r{peer}_{j}] DmaO")
+            rk.dev_event(nm, TID_SEND, [float(t), float(t), float(t), float(t), float(t + dur)], extra)
         # plain device slices that belong to no sequence (transfers and kernels), also between the parts
         for j, (t, dur) in enumerate(f.get("plain", [])):
             nm = [f"result_{j} DmaO", f"weights_{j} DmaI", f"mm_{j} Cmpt Exec"][j % 3]
@@ -488,7 +493,7 @@ def gen_e2e(ctx: Ctx):
                 t = rng.choice([x for x in range(10, 600) if x not in times])
                 times.add(t)
                 plain.append([t + 0.5, rng.choice([1, 5, 20])])
-            fl.append({"rank": r, "sends": sends, "plain": plain})
+            fl.append({"rank": r, "sends": sends, "plain": plain, "idless": rng.random() < 0.25})
         yield {"kind": "e2e", "gen": "custom", "spec": {"files": fl, "dirs": rng.random() < 0.4}}
 
 
